@@ -712,3 +712,69 @@ def r13(c):
     w = [cs for cs in rw.calls('scursor::write::WriteCursor::write_u16_be') if rw.in_cycle(cs.node)]
     okr = len(w) == 1 and bool(q.outcomes(rw, w[0]).get('success')) and 'value' in q.chain_names(rw, w[0].args[1])
     c.ob('registers', okr, 'each register value obtained from the handler is written big-endian, checked, in address order', '%d looped writes' % len(w), loc_of(rw))
+
+
+@rule('C01', 'R01.14', 'read replies cover exactly the requested addresses: AddressRange::iter() counts down `count` addresses from `start` (valid up to 0xFFFF); the writers call the getter once per address')
+def r14(c):
+    P = c.P
+    AI = 'rodbus::types::AddressIterator'
+    it = P.fn(AR + '::iter')
+    c.saw(it, len(it.calls()))
+    xs = q.exits(it)
+    nw = [x for x in xs if x['kind'] == 'call' and x['cs'].is_(AI + '::new')]
+    ok = len(xs) == 1 and len(nw) == 1
+    if ok:
+        a0, a1 = q.sem(it, nw[0]['cs'].args[0]), q.sem(it, nw[0]['cs'].args[1])
+        ok = q.sem_is_name(it, a0, 'self') and bool(a0.proj) and a0.proj[-1].endswith(':start') and q.sem_is_name(it, a1, 'self') and bool(a1.proj) and a1.proj[-1].endswith(':count')
+    c.ob('iter', ok, 'AddressRange::iter() is AddressIterator::new(self.start, self.count): driven by the count, not by an exclusive end address (start + count does not fit u16 for ranges ending at 0xFFFF)',
+         str([(x['kind'], getattr(x.get('cs'), 'callee', None)) for x in xs]), loc_of(it))
+    nb = P.fn(AI + '::new')
+    ag = [s for _, s in nb.aggregates(AI)]
+    okn = len(ag) == 1
+    if okn:
+        f = dict(zip(ag[0]['rv']['fields'], ag[0]['rv']['a']))
+        okn = q.is_name(nb, f['current'], 'current') and q.is_name(nb, f['remain'], 'remain')
+    c.ob('new', okn, 'AddressIterator::new stores (current, remain) as given', '', loc_of(nb))
+    nx = P.find_impl('core::iter::traits::iterator::Iterator', AI, 'next')
+    c.saw(nx, len(nx.calls()))
+
+    def fld(o, name):
+        s_ = q.sem(nx, o)
+        return q.sem_is_name(nx, s_, 'self') and bool(s_.proj) and s_.proj[-1].endswith(':' + name)
+    cs_ = [cs for cs in nx.calls() if cs.callee and cs.callee.endswith('::checked_sub') and fld(cs.args[0], 'remain') and q.const_val(nx, cs.args[1]) == 1]
+    okx = len(cs_) == 1
+    detail = '%d checked_sub(1) on remain' % len(cs_)
+    if okx:
+        oc = q.outcomes(nx, cs_[0])
+        exs = q.exits(nx)
+        some = [x for x in exs if x['kind'] == 'agg' and x['variant'] == 'Some']
+        none = [x for x in exs if x['kind'] == 'agg' and x['variant'] == 'None']
+        st_cur = [(i, s) for i, s in nx.assigns() if s['pl']['p'] and s['pl']['p'][-1].endswith(':current')] + \
+                 [(cs.block, None) for cs in nx.calls() if cs.dest['p'] and cs.dest['p'][-1].endswith(':current')]
+        st_rem = [(i, s) for i, s in nx.assigns() if s['pl']['p'] and s['pl']['p'][-1].endswith(':remain')]
+        okx = len(some) == 1 and len(none) == 1 and len(exs) == 2 and q.dominated_by_any(nx, oc.get('Some', []), some[0]['node']) and q.dominated_by_any(nx, oc.get('None', []), none[0]['node'])
+        # yielded value: self.current read before it is advanced
+        if okx:
+            l = some[0]['rv']['a'][0]['pl']['l'] if some[0]['rv']['a'][0].get('k') in ('copy', 'move') else None
+            ds = nx.whole_defs(l) if l is not None else []
+            okx = len(ds) == 1 and ds[0][0] == 'assign' and ds[0][2]['rv']['r'] == 'use' and fld(ds[0][2]['rv']['a'][0], 'current') and len(st_cur) == 1 and \
+                (nx.dominates(('b', ds[0][1]), ('b', st_cur[0][0])))
+        # advance: current = current.wrapping_add(1); remain = the checked_sub payload
+        if okx:
+            wa = [cs for cs in nx.calls() if cs.callee and cs.callee.endswith('::wrapping_add') and fld(cs.args[0], 'current') and q.const_val(nx, cs.args[1]) == 1]
+            adv = len(wa) == 1 and ((st_cur[0][1] is None and wa[0].block == st_cur[0][0]) or
+                                    (st_cur[0][1] is not None and st_cur[0][1]['rv']['r'] == 'use' and q.sem(nx, st_cur[0][1]['rv']['a'][0]).kind == 'call' and q.sem(nx, st_cur[0][1]['rv']['a'][0]).cs is wa[0]))
+            rem = len(st_rem) == 1 and st_rem[0][1]['rv']['r'] == 'use' and q.sem(nx, st_rem[0][1]['rv']['a'][0]).kind == 'call' and q.sem(nx, st_rem[0][1]['rv']['a'][0]).cs is cs_[0] and \
+                q.dominated_by_any(nx, oc.get('Some', []), ('b', st_rem[0][0]))
+            okx = adv and rem
+            detail = 'advance by wrapping_add(1): %s, remain := remain - 1: %s' % (adv, rem)
+    c.ob('next', okx, 'AddressIterator::next: while remain >= 1 it yields the current address, steps it by one (wrapping, so 0xFFFF is reachable) and decrements remain; then None', detail, loc_of(nx))
+    # the reply writers call the getter once per yielded address (C02/R02.4)
+    from rules import c02
+    c02.r4(c)
+
+
+@rule('C01', 'R01.15', 'addressing: on TCP/TLS every frame carries a unit id (unit id 0 is an ordinary unit there); Broadcast is produced only by the RTU parser (C17/R17.5)')
+def r15(c):
+    from rules import c17
+    c17.r5(c)
